@@ -35,7 +35,11 @@ FILES = {
     "src/memchr.rs": ["C01", "C02", "C06", "C07"],
     "src/memmem/mod.rs": ["C08", "C16", "C03", "C04"],
     "src/memmem/searcher.rs": ["C03", "C04", "C10", "C14", "C13"],
-    "src/vector.rs": ["C01", "C02", "C07", "C11"],
+    "src/vector.rs": ["C01", "C02", "C07", "C11", "C12"],
+    "src/arch/aarch64/neon/memchr.rs": ["C01", "C02", "C07", "C06"],
+    "src/arch/aarch64/neon/packedpair.rs": ["C11", "C12"],
+    "src/arch/wasm32/simd128/memchr.rs": ["C01", "C02", "C07", "C06"],
+    "src/arch/wasm32/simd128/packedpair.rs": ["C11", "C12"],
     "src/cow.rs": ["C16", "C17"],
 }
 
@@ -51,6 +55,14 @@ OPS = [
     (r"\.wrapping_add\(", [".wrapping_sub("]), (r"\.wrapping_sub\(", [".wrapping_add("]),
     (r"\.wrapping_mul\(2\)", [".wrapping_mul(3)"]),
     (r"\.add\(", [".sub("]), (r"\.sub\(", [".add("]),
+    (r"\bneedle1\(\)", ["needle2()"]), (r"\bneedle2\(\)", ["needle1()"]), (r"\bneedle3\(\)", ["needle1()"]),
+    (r"\bindex1\b", ["index2"]), (r"\bindex2\b", ["index1"]),
+    (r"\.\.=", [".."]), (r"\btrue\b", ["false"]), (r"\bfalse\b", ["true"]),
+    (r"\bSome\(0\)", ["Some(1)"]), (r"\[0\]", ["[1]"]), (r"\(0\)", ["(1)"]), (r" = 0;", [" = 1;"]),
+    (r"\.min\(", [".max("]), (r"\.max\(", [".min("]),
+    (r"\.checked_sub\(", [".checked_add("]), (r"\.checked_add\(", [".checked_sub("]),
+    (r" \* 2\b", [" * 3"]), (r" / 2\b", [" / 3"]), (r" >> 2\b", [" >> 1"]), (r" << 2\b", [" << 1"]),
+    (r"\bstart\b", ["end"]), 
 ]
 
 def mutable_lines(text):
@@ -86,7 +98,7 @@ def mutable_lines(text):
 
 def gen(outdir, per_file):
     os.makedirs(outdir, exist_ok=True)
-    rng = random.Random(20261001)
+    rng = random.Random(int(os.environ.get('MUTATE_SEED', '20261001')))
     index = []
     for f, checks in FILES.items():
         text = open(os.path.join(REPO, f)).read()
@@ -109,10 +121,12 @@ def gen(outdir, per_file):
                 cands.append((i, None, None, "<delete>", "stmt-delete"))
         rng.shuffle(cands)
         seen_lines = {}
+        seen_ops = {}
         picked = []
         for c in cands:
-            if seen_lines.get(c[0], 0) >= 2:
+            if seen_lines.get(c[0], 0) >= 2 or seen_ops.get(c[4], 0) >= 3:
                 continue
+            seen_ops[c[4]] = seen_ops.get(c[4], 0) + 1
             seen_lines[c[0]] = seen_lines.get(c[0], 0) + 1
             picked.append(c)
             if len(picked) >= per_file:
